@@ -198,6 +198,7 @@ impl Format for RecFormat {
     }
 }
 
+#[allow(dead_code)]
 fn take_single(cap: &Cap) -> Log {
     let mut v = cap.borrow_mut();
     if v.len() == 1 {
@@ -1074,13 +1075,30 @@ fn eval_stream<E: Ent, F: Fn(&'static Compiled, &mut Arena) -> E, C: SChain>(cx:
         let mut stream = C::build(cap.clone());
         let mut arena = Arena::default();
         let e = make(c, &mut arena);
-        let r = stream.next(&e);
+        // the same entry twice through ONE stream stack: a wrapper must not spend its
+        // configuration (globals, dimensions, deny list) on the first entry
+        let r = stream.next(&e).and_then(|()| stream.next(&e));
         let _ = stream.flush();
         drop(stream);
         drop(e);
         drop(arena);
         match r {
-            Ok(()) => take_single(&cap),
+            Ok(()) => {
+                let mut v = cap.borrow_mut();
+                if v.len() != 2 {
+                    return Log { items: vec![Item::StreamCalls(v.len())], sg: vec![] };
+                }
+                let second = v.pop().unwrap();
+                let first = v.pop().unwrap();
+                if first == second {
+                    first
+                } else {
+                    // report the second entry's log, marked so that it cannot match by accident
+                    let mut l = second;
+                    l.items.push(Item::StreamCalls(2));
+                    l
+                }
+            }
             Err(_) => Log { items: vec![Item::StreamCalls(usize::MAX)], sg: vec![] },
         }
     })
